@@ -109,17 +109,97 @@ def _trace_and_judge(ctx, rep, op, n_prior, base, model_ok):
     shutil.rmtree(path, ignore_errors=True)
 
 
+def _fsync_faults(ctx, rep, base):
+    """fsync can FAIL (EIO / ENOSPC at flush time): fail the k-th fsync of a regular file of an operation, for every k — if the pointer
+    still advances, no file reachable from the new version may be the one whose flush failed (in-process; no strace needed)"""
+    import stat as _stat
+    from .. import reader, tablekit
+    real = os.fsync
+    for op in ("append", "append2", "delfiles"):
+        k = 0
+        while True:
+            path = os.path.join(base, f"ff-{op}-{k}")
+            t = tablekit.create(path)
+            with t.new_transaction() as tx:
+                tx.append_data(tablekit.rows(2, start=0))
+                tx.append_data(tablekit.rows(2, start=5))
+                tx.commit()
+            before = reader.pointer(reader.DirStore(path))
+            seen = {"n": 0, "failed_ino": None}
+
+            def failing(fd, seen=seen, k=k):
+                try:
+                    st = os.fstat(fd)
+                    regular = _stat.S_ISREG(st.st_mode)
+                except OSError:
+                    regular, st = False, None
+                if regular:
+                    i = seen["n"]
+                    seen["n"] += 1
+                    if i == k:
+                        seen["failed_ino"] = st.st_ino
+                        raise OSError(5, "injected EIO on fsync")
+                return real(fd)
+            os.fsync = failing
+            raised = None
+            try:
+                if op == "append":
+                    t.append_records(tablekit.rows(1, start=100))
+                elif op == "append2":
+                    with t.new_transaction() as tx:
+                        tx.append_data(tablekit.rows(1, start=100))
+                        tx.append_data(tablekit.rows(1, start=200))
+                        tx.commit()
+                else:
+                    with t.new_transaction() as tx:
+                        tx.delete_files(["/" + tablekit.data_paths(t)[0]])
+                        tx.commit()
+            except BaseException as e:      # noqa: BLE001
+                raised = type(e).__name__
+            finally:
+                os.fsync = real
+            if seen["failed_ino"] is None:      # fewer than k+1 file fsyncs: the sweep of this operation is complete
+                shutil.rmtree(path, ignore_errors=True)
+                break
+            rep.evaluations += 1
+            rep.nontrivial(["fsync-fault", op, k])
+            rep.distribution[f"fsync-fault:{op}:{'raise' if raised else 'ok'}"] += 1
+            store = reader.DirStore(path)
+            after = reader.pointer(store)
+            case = {"kind": "fsync-fault", "op": op, "failed_fsync_index": k, "raised": raised}
+            if after != before:
+                try:
+                    reach = reader.reachable(path) | {"metadata/" + after[1], "metadata.version-hint.text"}
+                except reader.Broken as e:
+                    rep.violate("C16:pointer-names-unreadable-version-after-fsync-failure", f"{op}: fsync #{k} failed; pointer advanced to a version that cannot be read: {e}", case)
+                    reach = set()
+                for rel in reach:
+                    try:
+                        ino = os.stat(os.path.join(path, rel)).st_ino
+                    except OSError:
+                        continue
+                    if ino == seen["failed_ino"]:
+                        rep.violate("C16:pointer-advanced-over-a-file-whose-fsync-failed",
+                                    f"{op}: the fsync of {rel.split('/')[0]}/… failed (EIO), {'the operation raised ' + raised if raised else 'the operation reported success'}, "
+                                    f"and the pointer now names a version that reaches that file", case)
+            shutil.rmtree(path, ignore_errors=True)
+            k += 1
+
+
 def run(ctx, model_ok):
     rep = Report()
     rep.rule = ("every operation type {create, append, two-append transaction, delete files, expire, delete snapshot, collect} × tables with "
                 "{0,1,3} (thorough: 0–8) prior snapshots, each run in a child process under strace; the Lean judge evaluates EVERY prefix of the "
-                "real syscall trace at or after the pointer's rename; each written file's event sequence is compared with the model's lowering.")
+                "real syscall trace at or after the pointer's rename; each written file's event sequence is compared with the model's lowering; "
+                "plus every single fsync FAILURE (EIO on the k-th file fsync, all k) of append / two-append / delete commits: the pointer must not "
+                "advance over the file whose flush failed.")
     base = scratch_dir("c16-")
     try:
         priors = [0, 1, 3] if not ctx.thorough else list(range(0, 9))
         for op in ("create", "append", "append2", "delfiles", "expire", "delsnap", "gc"):
             for n in (priors if op != "create" else [0]):
                 _trace_and_judge(ctx, rep, op, n, base, model_ok)
+        _fsync_faults(ctx, rep, base)
         rep.exhaustive = True
     finally:
         shutil.rmtree(base, ignore_errors=True)
